@@ -32,6 +32,7 @@ import (
 //	               auth message): HMAC(HMAC("", "Server Key"), "")
 //	empty          an empty challenge
 //	junk           a challenge that is neither r=.. nor v=..
+//	hangup         the connection is dropped instead of an answer
 //	235            authentication successful
 //	535            authentication failed
 type AdvStep struct {
@@ -158,7 +159,19 @@ func (ad *adversary) Step(resp []byte, has bool) StepOut {
 			st.Sym = "first-foreign"
 		}
 	case "first-foreign":
-		msg = "r=Zm9yZWlnbi1ub25jZS1mb3JlaWdu" + suffix + ",s=" + salt64 + ",i=" + strconv.Itoa(ad.iter())
+		// a nonce of exactly the length of the client's, sharing no prefix with it (a foreign
+		// nonce that is longer or shorter is first-trunc's and first-ok's neighbourhood)
+		foreign := []byte("Zm9yZWlnbi1ub25jZS1mb3JlaWdu")
+		if ad.cn != "" {
+			foreign = []byte(ad.cn)
+			for i, c := range foreign {
+				foreign[i] = 'A' + (c+7)%26
+				if foreign[i] == c {
+					foreign[i] = 'z'
+				}
+			}
+		}
+		msg = "r=" + string(foreign) + suffix + ",s=" + salt64 + ",i=" + strconv.Itoa(ad.iter())
 		ad.first = ""
 	case "first-trunc":
 		cn := ad.cn
@@ -221,6 +234,9 @@ func (ad *adversary) Step(resp []byte, has bool) StepOut {
 		msg = ""
 	case "junk":
 		msg = "x=hello,this is junk"
+	case "hangup":
+		ad.Trace = append(ad.Trace, st)
+		return StepOut{Hangup: true}
 	case "235":
 		ad.Trace = append(ad.Trace, st)
 		return StepOut{Done: true, OK: true, User: "adversary-says-yes"}
